@@ -681,7 +681,12 @@ def _run_timed(ns, cfg, hist, props=None):
                 w.note("no timer to fire for %s" % addr)
                 continue
             dc = own[0]
-            # fire at the instant the history says (== its due time in the solo run)
+            # fire at the instant the history says (== its due time in the solo run); never a few
+            # ulps early (the clocks of the two runs may differ by float noise below the 1e-9 tie
+            # tolerance of the merge, and LoopingCall reschedules for the same instant when it is
+            # called a hair before its due time)
+            if 0 < dc.getTime() - w.reactor.rightNow < 1e-6:
+                w.reactor.rightNow = dc.getTime()
             w.reactor.calls.remove(dc)
             dc.called = 1
             label = w.timer_label.get(dc.sim_tid)
